@@ -85,9 +85,10 @@ package ast
 //@ ghost var $valRes RV
 //@ ghost var $resN array[Ref]int          // per variable: successful evaluations (resolutions) so far
 //@ ghost var $resCtx array[Ref]Ref        // per variable: the data context of its last successful resolution
-//@ macro func reslogMono() bool { return (forall v *Variable {$resN[v]} :: $resN[v] >= old($resN[v])) && $getN >= old($getN) && $fldN >= old($fldN) && $idxN >= old($idxN) && $selN >= old($selN) && $valN >= old($valN) }
+//@ macro func reslogMono() bool { return (forall v *Variable {$resN[v]} :: $resN[v] >= old($resN[v])) && $getN >= old($getN) && $fldN >= old($fldN) && $idxN >= old($idxN) && $selN >= old($selN) && $valN >= old($valN) && $callN >= old($callN) }
 // ($allocated rides along: argument lists are made with make(); only the loaders (C20) reason about the count, and they never evaluate)
-//@ modset reslog = $allocated, $getN, $getCtx, $getKey, $getRes, $fldN, $fldNode, $fldName, $fldRes, $idxN, $idxNode, $idxIndex, $idxRes, $selN, $selNode, $selKey, $selRes, $valN, $valNode, $valRes, $resN, $resCtx
+//@ ghost var $callN int                 // ValueNode.CallFunction invocations so far (fact methods and built-ins)
+//@ modset reslog = $allocated, $callN, $getN, $getCtx, $getKey, $getRes, $fldN, $fldNode, $fldName, $fldRes, $idxN, $idxNode, $idxIndex, $idxRes, $selN, $selNode, $selKey, $selRes, $valN, $valNode, $valRes, $resN, $resCtx
 //@ modset actlog = @setlog, @asglog, $exprRes, $varRes, $atomRes, @reslog
 // failures are counted outside every modset: only the functions that list the counters may change them, and an evaluation that
 // returns nil has swallowed no failure of a nested evaluation (C14)
@@ -507,6 +508,8 @@ package ast
 //@   trusted_ensures ($depth > 0 || !$inAction) ==> (forall x *Expression :: old(x.Evaluated) ==> x.Evaluated && x.Value == old(x.Value)) && (forall a *ExpressionAtom :: old(a.Evaluated) ==> a.Evaluated && a.Value == old(a.Value))
 //@   ensures[C13] memohit: old(e.Evaluated) ==> err == nil && val == old(e.Value) && unchanged("memo") && unchanged("userstate")
 //@   ensures[C01,C02,C13] memoconsistent: e.Evaluated && !old(e.Evaluated) ==> err == nil && e.Value == val
+// C04/C10 (an action that is a call runs): an atom that is a call, is not remembered and succeeds HAS invoked its function
+//@   ensures[C04,C10] callinvoked: !old(e.Evaluated) && err == nil && e.Constant == nil && e.Variable == nil && e.FunctionCall != nil ==> $callN > old($callN)
 //@   ensures mono: reslogMono()
 //@   checks[C01,C02] fromvariable: !old(e.Evaluated) && err == nil && e.Constant == nil && e.Variable != nil ==> val == $varRes[e.Variable] && e.ValueNode == e.Variable.ValueNode
 //@   checks[C01,C02] member: !old(e.Evaluated) && err == nil && e.Constant == nil && e.Variable == nil && e.ExpressionAtom != nil && e.FunctionCall == nil && len(e.VariableName) > 0
@@ -536,8 +539,8 @@ package ast
 //@   requires $depth >= 0 && treeWF()
 //@   modifies @memo, $exprRes, $varRes, $atomRes, @reslog, $atomErrN
 //@   invariant@1 sofar: len(values) == len(e.Arguments) && $atomErrN == old($atomErrN) && e == old(e) && $depth == old($depth) && (forall j int {e.Arguments[j]} :: 0 <= j && j < $i ==> e.Arguments[j] != nil && e.Arguments[j].Evaluated && values[j] == e.Arguments[j].Value)
-//@   invariant@1 monoE: forall x *Expression :: old(x.Evaluated) ==> x.Evaluated && x.Value == old(x.Value)
-//@   invariant@1 monoA: forall a *ExpressionAtom :: old(a.Evaluated) ==> a.Evaluated && a.Value == old(a.Value)
+//@   invariant@1 monoE: forall x *Expression {x.Evaluated} :: old(x.Evaluated) ==> x.Evaluated && x.Value == old(x.Value)
+//@   invariant@1 monoA: forall a *ExpressionAtom {a.Evaluated} :: old(a.Evaluated) ==> a.Evaluated && a.Value == old(a.Value)
 //@   invariant@1 mono: reslogMono()
 //@   invariant@1 argskept: forall l *ArgumentList :: l.Arguments == old(l.Arguments)
 //@   ensures monoE: forall x *Expression :: old(x.Evaluated) ==> x.Evaluated && x.Value == old(x.Value)
@@ -560,6 +563,7 @@ package ast
 //@ extern func (n model.ValueNode) CallFunction(funcName, args) (ret, err)
 //@   modifies @actions
 //@   ensures reslogMono()
+//@   ghost_exit $callN = $callN + 1
 // T-USER: user functions do not reach into the engine's memo
 //@   ensures unchanged("memo")
 //@   ensures forall re *RuleEntry :: old(re.Retracted) ==> re.Retracted
@@ -679,6 +683,10 @@ package ast
 // C14: a statement that fails - the assignment, or the call statement's evaluation - is reported to the caller
 //@   ensures[C14] assignfails: e.Assignment != nil && $asgErrN > old($asgErrN) ==> err != nil
 //@   ensures[C14] callfails: e.Assignment == nil && e.ExpressionAtom != nil && $atomErrN > old($atomErrN) ==> err != nil
+// C04 / C10, from the property ("executing a rule applies its actions", "the remaining actions of the current rule still run"): a call
+// statement invokes its function EVERY time it is executed - whatever is remembered about the same text from an earlier firing, from
+// another rule that shares the statement, or from a condition (found F29: the statement's atom was answered from the memo)
+//@   ensures[C04,C10] callruns: e.Assignment == nil && e.ExpressionAtom != nil && e.ExpressionAtom.Constant == nil && e.ExpressionAtom.Variable == nil && e.ExpressionAtom.FunctionCall != nil && err == nil ==> $callN > old($callN)
 //@   ghost_entry $thenSeq = store($thenSeq, $thenN, e)
 //@   ghost_entry $thenN = $thenN + 1
 //@   ghost_exit $thenFailN = ite(err != nil, $thenFailN + 1, $thenFailN)
